@@ -458,7 +458,10 @@ class DebuggedApplication:
     def _fail_pin_auth(self) -> None:
         with self._failed_pin_auth.get_lock():
             count = self._failed_pin_auth.value
-            self._failed_pin_auth.value = count + 1
+
+            # The counter is an unsigned byte, saturate instead of wrapping to 0.
+            if count < 255:
+                self._failed_pin_auth.value = count + 1
 
         time.sleep(5.0 if count > 5 else 0.5)
 
